@@ -1109,6 +1109,200 @@ Proof.
   intros G. exists (tree_of t). split; [apply newick_roundtrip; now apply ok_tree_of|apply names_tree_of].
 Qed.
 
+
+(** * the evaluator does not depend on how the families are numbered *)
+Section Renumber.
+  Variable R : fam -> fam -> Prop.
+  Hypothesis R_inj : forall a b a' b', R a b -> R a' b' -> (a = a' <-> b = b').
+
+  Lemma fam_eqb_R a b a' b' : R a b -> R a' b' -> fam_eqb a a' = fam_eqb b b'.
+  Proof.
+    intros H H'. unfold fam_eqb. destruct (N.eqb_spec a a') as [E|N1], (N.eqb_spec b b') as [E'|N2]; auto.
+    - elim N2. now apply (R_inj _ _ _ _ H H').
+    - elim N1. now apply (R_inj _ _ _ _ H H').
+  Qed.
+
+  Lemma mask_of_R : forall rs rs', Forall2 R rs rs' -> forall syn syn', Forall2 R syn syn' ->
+    mask_of rs syn = mask_of rs' syn'.
+  Proof.
+    unfold mask_of. induction 1 as [|r r' rs rs' Hr _ IH]; intros syn syn' Hs; [reflexivity|].
+    destruct Hs as [|x x' syn syn' Hx Hs]; [reflexivity|]. cbn [Subseq.mask_from_subseq].
+    rewrite (fam_eqb_R _ _ _ _ Hx Hr). destruct (fam_eqb x' r').
+    - now rewrite (IH _ _ Hs).
+    - now rewrite (IH (x :: syn) (x' :: syn') (Forall2_cons _ _ Hx Hs)).
+  Qed.
+
+  Lemma existsb_R x x' : R x x' -> forall z z', Forall2 R z z' -> existsb (fam_eqb x) z = existsb (fam_eqb x') z'.
+  Proof. intros Hx. induction 1 as [|a a' z z' Ha _ IH]; [reflexivity|]. cbn. now rewrite (fam_eqb_R _ _ _ _ Hx Ha), IH. Qed.
+  Lemma subset_R : forall y y', Forall2 R y y' -> forall z z', Forall2 R z z' -> subset y z = subset y' z'.
+  Proof.
+    unfold subset. induction 1 as [|a a' y y' Ha _ IH]; intros z z' Hz; [reflexivity|]. cbn.
+    now rewrite (existsb_R _ _ Ha _ _ Hz), (IH _ _ Hz).
+  Qed.
+
+  Fixpoint lren (t t' : ltree) : Prop :=
+    match t, t' with
+    | LLeaf s y, LLeaf s' y' => s = s' /\ Forall2 R y y'
+    | LNode s y a b, LNode s' y' a' b' => s = s' /\ Forall2 R y y' /\ lren a a' /\ lren b b'
+    | _, _ => False
+    end.
+  Lemma lren_lroot t t' : lren t t' -> lroot t = lroot t'.
+  Proof. destruct t, t'; cbn; try contradiction; tauto. Qed.
+  Lemma lren_lsyn t t' : lren t t' -> Forall2 R (lsyn t) (lsyn t').
+  Proof. destruct t, t'; cbn; try contradiction; tauto. Qed.
+  Lemma lren_forget : forall t t', lren t t' -> forget t = forget t'.
+  Proof.
+    induction t as [s y|s y a IHa b IHb]; intros [s' y'|s' y' a' b'] H; cbn in H; try contradiction.
+    - destruct H as [-> _]. reflexivity.
+    - destruct H as [-> [_ [Ha Hb]]]. cbn. now rewrite (IHa _ Ha), (IHb _ Hb).
+  Qed.
+
+  Lemma olab_rec_R rs rs' : Forall2 R rs rs' -> forall t t' m, lren t t' -> olab_rec rs m t = olab_rec rs' m t'.
+  Proof.
+    intros Hr. induction t as [s y|s y a IHa b IHb]; intros [s' y'|s' y' a' b'] m H; cbn in H; try contradiction; [reflexivity|].
+    destruct H as [-> [_ [Ha Hb]]]. cbn [olab_rec].
+    rewrite (mask_of_R _ _ Hr _ _ (lren_lsyn _ _ Ha)), (mask_of_R _ _ Hr _ _ (lren_lsyn _ _ Hb)).
+    rewrite (lren_lroot _ _ Ha), (lren_lroot _ _ Hb), (IHa _ _ Ha), (IHb _ _ Hb). reflexivity.
+  Qed.
+  Lemma ulab_rec_R : forall t t', lren t t' -> ulab_rec t = ulab_rec t'.
+  Proof.
+    induction t as [s y|s y a IHa b IHb]; intros [s' y'|s' y' a' b'] H; cbn in H; try contradiction; [reflexivity|].
+    destruct H as [-> [Hy [Ha Hb]]]. cbn [ulab_rec].
+    rewrite (subset_R _ _ Hy _ _ (lren_lsyn _ _ Ha)), (subset_R _ _ Hy _ _ (lren_lsyn _ _ Hb)).
+    rewrite (lren_lroot _ _ Ha), (lren_lroot _ _ Hb), (IHa _ Ha), (IHb _ Hb). reflexivity.
+  Qed.
+
+  Lemma Forall2_len {A B} (P : A -> B -> Prop) l l' : Forall2 P l l' -> List.length l = List.length l'.
+  Proof. induction 1; cbn; auto. Qed.
+
+  Lemma total_cost_R c O ord t t' : lren t t' -> total_cost c O ord t = total_cost c O ord t'.
+  Proof.
+    intros H. unfold total_cost, labeling_cost. rewrite (lren_forget _ _ H). destruct ord.
+    - unfold ordered_labeling_cost. pose proof (lren_lsyn _ _ H) as Hs.
+      rewrite (olab_rec_R _ _ Hs t t' _ H). unfold Subseq.subseq_complete.
+      now rewrite (Forall2_len _ _ _ Hs).
+    - unfold unordered_labeling_cost. now rewrite (ulab_rec_R _ _ H).
+  Qed.
+End Renumber.
+
+(* a numbering of family names: injective where defined *)
+Definition num_inj (num : string -> option fam) : Prop :=
+  forall s s' a, num s = Some a -> num s' = Some a -> s = s'.
+
+Lemma fam_num_inj tbl : num_inj (fam_num tbl).
+Proof.
+  intros s s' a H H'. apply fam_name_num in H. apply fam_name_num in H'. rewrite H in H'. now inversion H'.
+Qed.
+
+Definition syn_strings (sy : synmap) : list string := flat_map (fun ps => syn_items (snd ps)) sy.
+
+Lemma syn_strings_sub i sy s : In s (syn_strings (sub_map i sy)) -> In s (syn_strings sy).
+Proof.
+  unfold syn_strings. rewrite !in_flat_map. intros [[q v] [I H]]. apply sub_map_In in I. eauto.
+Qed.
+Lemma syn_strings_root sy v s : at_root sy = Some v -> In s (syn_items v) -> In s (syn_strings sy).
+Proof.
+  intros E I. apply at_root_In in E. unfold syn_strings. apply in_flat_map. exists ([], v). auto.
+Qed.
+
+Section TwoNumberings.
+  Variables num1 num2 : string -> option fam.
+  Hypothesis inj1 : num_inj num1.
+  Hypothesis inj2 : num_inj num2.
+  Definition Rnum (a b : fam) : Prop := exists s, num1 s = Some a /\ num2 s = Some b.
+
+  Lemma Rnum_inj a b a' b' : Rnum a b -> Rnum a' b' -> (a = a' <-> b = b').
+  Proof.
+    intros [s [H1 H2]] [s' [H1' H2']]. split; intros E; subst.
+    - rewrite (inj1 _ _ _ H1 H1') in H2. congruence.
+    - rewrite (inj2 _ _ _ H2 H2') in H1. congruence.
+  Qed.
+
+  Lemma mapM_renumber : forall l y1, mapM num1 l = Some y1 -> (forall s, In s l -> num2 s <> None) ->
+    exists y2, mapM num2 l = Some y2 /\ Forall2 Rnum y1 y2.
+  Proof.
+    induction l as [|s l IH]; intros y1 E D; cbn in E.
+    - inversion E. exists []. split; [reflexivity|constructor].
+    - destruct (num1 s) as [a|] eqn:E1; [|discriminate]. destruct (mapM num1 l) as [y|] eqn:El; [|discriminate].
+      inversion E; subst y1. destruct (num2 s) as [b|] eqn:E2; [|now elim (D s (or_introl eq_refl))].
+      destruct (IH y eq_refl (fun s' I => D s' (or_intror I))) as [y2 [E2' F]].
+      exists (b :: y2). cbn. rewrite E2, E2'. split; [reflexivity|]. constructor; auto. exists s. auto.
+  Qed.
+
+  Lemma to_ltree_renumber : forall t1 tr m sy, to_ltree num1 tr m sy = Some t1 ->
+    (forall s, In s (syn_strings sy) -> num2 s <> None) ->
+    exists t2, to_ltree num2 tr m sy = Some t2 /\ lren Rnum t1 t2.
+  Proof.
+    induction t1 as [s y|s y a IHa b IHb]; intros [n c [|ta [|tb [|z ks]]]] m sy E D; cbn in E; unfold option_map in E; try discriminate E;
+      try solve [repeat (match type of E with context [match ?x with _ => _ end] => destruct x end; try discriminate E)].
+    - destruct (at_root m) as [q|] eqn:Em; [|discriminate].
+      destruct (at_root sy) as [v|] eqn:Ev; [|discriminate].
+      assert (exists l, syn_items v = l /\ (match v with SList l0 | SSet l0 => mapM num1 l0 end) = mapM num1 l
+              /\ (match v with SList l0 | SSet l0 => mapM num2 l0 end) = mapM num2 l) as [l [El [M1 M2]]]
+        by (destruct v; eexists; repeat split).
+      rewrite M1 in E. destruct (mapM num1 l) as [y1|] eqn:E1; [|discriminate].
+      destruct (to_bpath q) as [s1|] eqn:Eq; [|discriminate]. cbn in E. inversion E; subst s1 y1.
+      destruct (mapM_renumber l y E1) as [y2 [E2 F]].
+      { intros s' I. apply D. eapply syn_strings_root; eauto. now rewrite El. }
+      exists (LLeaf s y2). cbn. rewrite Em, Ev, M2, E2, Eq. cbn. auto.
+    - destruct (at_root m) as [q|] eqn:Em; [|discriminate].
+      destruct (at_root sy) as [v|] eqn:Ev; [|discriminate].
+      assert (exists l, syn_items v = l /\ (match v with SList l0 | SSet l0 => mapM num1 l0 end) = mapM num1 l
+              /\ (match v with SList l0 | SSet l0 => mapM num2 l0 end) = mapM num2 l) as [l [El [M1 M2]]]
+        by (destruct v; eexists; repeat split).
+      rewrite M1 in E. destruct (mapM num1 l) as [y1|] eqn:E1; [|discriminate].
+      destruct (to_ltree num1 ta (sub_map 0 m) (sub_map 0 sy)) as [la|] eqn:Ea; [|discriminate].
+      destruct (to_ltree num1 tb (sub_map 1 m) (sub_map 1 sy)) as [lb|] eqn:Eb; [|discriminate].
+      destruct (to_bpath q) as [s1|] eqn:Eq; [|discriminate]. cbn in E. inversion E; subst s1 y1 la lb.
+      destruct (mapM_renumber l y E1) as [y2 [E2 F]].
+      { intros s' I. apply D. eapply syn_strings_root; eauto. now rewrite El. }
+      destruct (IHa _ _ _ Ea (fun s' I => D s' (syn_strings_sub _ _ _ I))) as [a2 [Ea2 Ra]].
+      destruct (IHb _ _ _ Eb (fun s' I => D s' (syn_strings_sub _ _ _ I))) as [b2 [Eb2 Rb]].
+      exists (LNode s y2 a2 b2). cbn. rewrite Em, Ev, M2, E2, Ea2, Eb2, Eq. cbn. auto.
+  Qed.
+
+  Theorem eval_numbering_irrelevant x v :
+    (forall s, In s (syn_strings (syns x)) -> num2 s <> None) ->
+    eval_soutput num1 x = Some v -> eval_soutput num2 x = Some v.
+  Proof.
+    intros D. unfold eval_soutput.
+    destruct (to_costs _) as [c|]; [|discriminate]. destruct (to_otree _ _ None) as [Ot|]; [|discriminate].
+    destruct (to_ltree num1 _ _ _) as [t1|] eqn:E1; [|discriminate].
+    destruct (to_ltree_renumber _ _ _ _ E1 D) as [t2 [E2 R]]. rewrite E2.
+    now rewrite (total_cost_R Rnum Rnum_inj c Ot (ordered x) t1 t2 R).
+  Qed.
+End TwoNumberings.
+
+(* the numbering an evaluator builds from the object alone: defined on every family that occurs *)
+Lemma own_num_defined x s : In s (syn_strings (syns x)) -> fam_num (fam_table (syns x)) s <> None.
+Proof.
+  intros I. assert (In s (fam_table (syns x))) as I' by (unfold fam_table; now apply nodup_In).
+  unfold fam_num. destruct (index_of s (fam_table (syns x))) as [i|] eqn:E; [discriminate|].
+  exfalso. clear I. induction (fam_table (syns x)) as [|a l IH]; [destruct I'|]. cbn in E.
+  destruct (String.eqb_spec s a) as [->|N]; [discriminate|].
+  destruct (index_of s l); [discriminate|]. destruct I' as [->|I']; [now elim N|auto].
+Qed.
+
+Corollary eval_own_numbering num r v : num_inj num -> eval_result num r = Some v -> eval_result (own_num r) r = Some v.
+Proof.
+  destruct r as [x|x]; cbn [eval_result own_num]; [auto|]. intros Hn.
+  apply (eval_numbering_irrelevant num _ Hn (fam_num_inj _)). apply own_num_defined.
+Qed.
+
+(** * Theorem 1, stated with the evaluator's own numbering of the families: it reads nothing
+      but the written line *)
+Theorem cli_objects_parse_back_own x inp warned m objs :
+  read_input x = Some inp -> cli_input_wf inp -> nn (c_hgt (ci_costs x)) ->
+  cli_run x = CliOk warned m objs ->
+  forall d, In d objs ->
+  exists r, parse_back d = Some r /\ result_input r = Plain (base_of inp) /\
+            eval_result (own_num r) r = Some m.
+Proof.
+  intros Er W Hh H d Id.
+  destruct (cli_objects_parse_back x inp warned m objs Er W Hh H d Id) as [r [P [I E]]].
+  exists r. repeat split; auto. exact (eval_own_numbering _ r m (fam_num_inj _) E).
+Qed.
+
 (** * non-vacuity: an input with unnamed ancestors, a "NoName" ancestor and a given name that
       looks like a generated one; six optimal unordered super-reconciliations *)
 Definition ex_costs : Recon.costs := {| c_spe := 0; c_dup := 1; c_hgt := Fin 1; c_floss := 1; c_sloss := 1 |}.
@@ -1169,6 +1363,8 @@ Definition cli_all_superset_any_statement : Prop :=
   incl oa ol /\ ma = ml.
 
 Print Assumptions cli_objects_parse_back.
+Print Assumptions cli_objects_parse_back_own.
+Print Assumptions eval_numbering_irrelevant.
 Print Assumptions cli_all_superset_any.
 Print Assumptions cli_names.
 Print Assumptions cli_super_without_syntenies.
